@@ -281,6 +281,8 @@ class HTTP1Connection(httputil.HTTPConnection):
                             self.stream.close()
                             return False
             self._read_finished = True
+            if isinstance(delegate, _GzipMessageDelegate):
+                delegate.check_complete()
             if not self._write_finished or self.is_client:
                 need_delegate_close = False
                 with _ExceptionLoggingContext(app_log):
@@ -740,6 +742,7 @@ class _GzipMessageDelegate(httputil.HTTPMessageDelegate):
         self._chunk_size = chunk_size
         self._max_body_size = max_body_size
         self._decompressed_body_size = 0
+        self._saw_compressed_data = False
         self._decompressor: GzipDecompressor | None = None
 
     def headers_received(
@@ -759,6 +762,8 @@ class _GzipMessageDelegate(httputil.HTTPMessageDelegate):
     async def data_received(self, chunk: bytes) -> None:
         if self._decompressor:
             compressed_data = chunk
+            if chunk:
+                self._saw_compressed_data = True
             while compressed_data:
                 decompressed = self._decompressor.decompress(
                     compressed_data, self._chunk_size
@@ -794,6 +799,18 @@ class _GzipMessageDelegate(httputil.HTTPMessageDelegate):
                     "decompressor.flush returned data; possible truncated input"
                 )
         return self._delegate.finish()
+
+    def check_complete(self) -> None:
+        """Raises `.HTTPInputError` unless the gzip stream (if any) has ended cleanly.
+
+        zlib's ``flush()`` does not complain about a stream that stops early;
+        its end-of-stream flag tells. Bytes after the end of the gzip stream
+        are not part of the body either.
+        """
+        if self._decompressor is not None and self._saw_compressed_data:
+            zobj = self._decompressor.decompressobj
+            if not zobj.eof or zobj.unused_data:
+                raise httputil.HTTPInputError("truncated or malformed gzip body")
 
     def on_connection_close(self) -> None:
         return self._delegate.on_connection_close()
